@@ -52,13 +52,15 @@ fn op_strategy() -> impl Strategy<Value = Op> {
 
 pub fn strategy(tier: Tier) -> BoxedStrategy<Case> {
     let (maxdim, maxops) = tier.pick((8usize, 60usize), (16, 120));
-    (1..=maxdim, 1..=maxdim, proptest::collection::vec(op_strategy(), 0..=maxops), prop_oneof![1700 => Just(0u8), 150 => Just(1u8), 150 => Just(2u8), 1 => Just(3u8), 1 => Just(4u8), 20 => Just(5u8), 20 => Just(6u8)])
+    (1..=maxdim, 1..=maxdim, proptest::collection::vec(op_strategy(), 0..=maxops), prop_oneof![3400 => Just(0u8), 300 => Just(1u8), 300 => Just(2u8), 2 => Just(3u8), 2 => Just(4u8), 40 => Just(5u8), 40 => Just(6u8), 1 => Just(7u8)])
         .prop_map(|(rows, cols, ops, big)| match big {
             // heavy lines: 200..=359 rows (or columns), at most 3 lines the other way, nearly full before the history starts
             5 => Case { rows: 200 + rows * 20 - 1, cols: cols.min(3), ops: ops.into_iter().take(30).collect(), big },
             6 => Case { rows: rows.min(3), cols: 200 + cols * 20 - 1, ops: ops.into_iter().take(30).collect(), big },
             1 => Case { rows: 130, cols: cols.min(4), ops, big },
             2 => Case { rows: rows.min(4), cols: 130, ops, big },
+            // both dimensions beyond 2^16: rows x columns exceeds 2^32 (linear positions do not fit 32 bits)
+            7 => Case { rows: 70_000, cols: 70_000, ops: ops.into_iter().take(12).collect(), big },
             3 => Case { rows: 65_600, cols: cols.min(3), ops: ops.into_iter().take(16).collect(), big },
             4 => Case { rows: rows.min(3), cols: 65_600, ops: ops.into_iter().take(16).collect(), big },
             _ => Case { rows, cols, ops, big },
@@ -152,7 +154,9 @@ pub fn check(case: &Case, p: &mut Probe) -> Check {
     let (rows, cols) = (case.rows, case.cols);
     let mut h = SparseMatrix::new(rows, cols);
     let mut model: BTreeSet<(usize, usize)> = BTreeSet::new();
-    compare(&h, &model, rows, cols, 0)?;
+    if rows.saturating_mul(cols) <= 1_000_000 {
+        compare(&h, &model, rows, cols, 0)?;
+    }
     // for the non-triviality rule
     let mut deleted_rows: BTreeSet<usize> = BTreeSet::new();
     let mut deleted_cols: BTreeSet<usize> = BTreeSet::new();
@@ -163,20 +167,21 @@ pub fn check(case: &Case, p: &mut Probe) -> Check {
     let ri = move |a: u16| -> usize {
         match big {
             1 => ALIASED[idx(a, ALIASED.len())],
-            3 => ALIASED16[idx(a, ALIASED16.len())],
+            3 | 7 => ALIASED16[idx(a, ALIASED16.len())],
             _ => idx(a, rows),
         }
     };
     let ci = move |a: u16| -> usize {
         match big {
             2 => ALIASED[idx(a, ALIASED.len())],
-            4 => ALIASED16[idx(a, ALIASED16.len())],
+            4 | 7 => ALIASED16[idx(a, ALIASED16.len())],
             _ => idx(a, cols),
         }
     };
     // lines walked by the comparison after every step
-    let row_list: Vec<usize> = if big == 3 { ALIASED16.to_vec() } else { (0..rows).collect() };
-    let col_list: Vec<usize> = if big == 4 { ALIASED16.to_vec() } else { (0..cols).collect() };
+    let row_list: Vec<usize> = if big == 3 || big == 7 { ALIASED16.to_vec() } else { (0..rows).collect() };
+    let col_list: Vec<usize> = if big == 4 || big == 7 { ALIASED16.to_vec() } else { (0..cols).collect() };
+    p.class_if(big == 7, "rows-times-columns-beyond-2^32");
     p.class_if(big == 3 || big == 4, "dimension-65600-aliased-indices");
     p.class_if(big == 1 || big == 2, "dimension-130-aliased-indices");
     if big == 5 || big == 6 {
@@ -391,7 +396,7 @@ pub fn property() -> Property {
             }),
             Box::new(Sub {
             name: "model",
-            rule: "histories of 0..=60 (thorough 120) operations {insert, remove, toggle, clear_row/col, set_row/col, insert_row/col; the bulk operations receive their list as an iterator over references or values whose size hint is exact, (0, None), (0, Some(usize::MAX)) or (0, Some(len))} on shapes 1..=8 (16) squared, one history in seven on a matrix with 130 rows (or columns) whose generated indices agree modulo 64 (0, 1, 2, 63..66, 127..129), one in 50 on a matrix of 219..=359 by at most 3 (or transposed) whose lines hold hundreds of entries before the history starts, one in 1000 on a matrix with 65 600 rows (or columns) and indices that agree modulo 2^16 (short histories; only the touched lines and the all-entries iterator are walked), half of the cell operations aimed at entries currently present; after every step every query of the real matrix is compared with a BTreeSet model; non-trivial = a deletion that removed something followed by an insertion into the same row or column; distinct by digest of the whole history",
+            rule: "histories of 0..=60 (thorough 120) operations {insert, remove, toggle, clear_row/col, set_row/col, insert_row/col; the bulk operations receive their list as an iterator over references or values whose size hint is exact, (0, None), (0, Some(usize::MAX)) or (0, Some(len))} on shapes 1..=8 (16) squared, one history in seven on a matrix with 130 rows (or columns) whose generated indices agree modulo 64 (0, 1, 2, 63..66, 127..129), one in 50 on a matrix of 219..=359 by at most 3 (or transposed) whose lines hold hundreds of entries before the history starts, one in 4000 on a 70 000 x 70 000 matrix (rows x columns beyond 2^32), one in 1000 on a matrix with 65 600 rows (or columns) and indices that agree modulo 2^16 (short histories; only the touched lines and the all-entries iterator are walked), half of the cell operations aimed at entries currently present; after every step every query of the real matrix is compared with a BTreeSet model; non-trivial = a deletion that removed something followed by an insertion into the same row or column; distinct by digest of the whole history",
             cases: |t| t.pick(300_000, 10_000_000),
             strategy,
             check,
